@@ -96,7 +96,7 @@ class Cond(object):
         pm = dict((p.name, p) for p in self.params)
         doms = [pm[n].domain() for n in self.shard]
         for combo in itertools.product(*doms):
-            sid = self.name + "".join("-%s%s" % (n, int(v)) for n, v in zip(self.shard, combo))
+            sid = self.name + "".join("-%s.%s" % (n, int(v)) for n, v in zip(self.shard, combo))
             sfix = dict(zip(self.shard, combo))
             if self.skip is not None and self.skip(sfix):
                 continue
